@@ -26,6 +26,15 @@ def corpus(ctx, max_exh=3, n_random=300, max_leaves=12):
             rk = sorted({k for k in exprs.leaves(t) if exprs.kind(k) == "rc"})
             for rho in exprs.assignments(rk, STATES):
                 out.append((t, rho))
+    # compositions that are NEUTRAL as a whole (hints and format constraints only) as operands of a further composition
+    L = lambda k: ("L", k)
+    neutral = [("and", L("501"), L("502")), ("or", L("501"), L("502")), ("xor", L("901"), L("902")), ("then", L("501"), L("901")), ("and", L("501"), L("901"))]
+    for op in ("and", "or", "xor"):
+        for a in neutral:
+            for b in neutral:
+                out.append(((op, a, b), {}))
+            out.append(((op, a, L("1")), {"1": "FULFILLED"}))
+            out.append(((op, L("2"), a), {"2": "UNFULFILLED"}))
     rc3, h3, f3 = RC + ["3", "2001"], HINTS + ["900"], FCS + ["999"]
     for _ in range(n_random):
         n = ctx.rng.randint(4, max_leaves)
